@@ -10,7 +10,7 @@ from .util import (
     create_id, is_uuid, check_entity_name_and_type, check_entity_type,
     check_entity_name, check_entity_id, check_empty_str, check_name_or_id,
     check_entity_input, now_int, time_to_str, str_to_time, check_attr_type,
-    apply_polynomial, vlen_str_dtype
+    apply_polynomial, vlen_str_dtype, check_text_storable
 )
 from . import names
 from . import units
@@ -20,4 +20,5 @@ __all__ = ("names", "units", "create_id", "is_uuid",
            "check_entity_name", "check_entity_id", "check_empty_str",
            "check_name_or_id", "check_entity_input", "now_int", "time_to_str",
            "str_to_time", "check_attr_type", "apply_polynomial",
-           "vlen_str_dtype")
+           "vlen_str_dtype",
+           "check_text_storable")
